@@ -52,6 +52,8 @@ class C15(Prop):
                 # outbound traffic that keeps the send queue non-empty across several keep-alive periods: a multi-fragment frame on a link that
                 # takes `gap` ms per frame
                 c['busy'] = {'at': rng.randint(0, max(1, horizon // 2)), 'size': rng.choice([600, 2000, 6000]), 'gap': rng.choice([7, 40, P // 2 + 1, P + 3])}
+            if pat in ('never', 'stops', 'slow') and rng.random() < 0.5:
+                c['again'] = True      # after the timeout the application reconnects: the second connection is a connected client again
             out.append(c)
         for _ in range(60 if tier == 'quick' else 1500):
             out.append({'kind': 'echo', 'role': rng.choice(['client', 'server']),
@@ -76,7 +78,7 @@ class C15(Prop):
         from rsocket import frame as F
         import asyncio
         busy = case.get('busy')
-        R = clientrun.ClientRun(loop, n_transports=1, ka_ms=case['P'], life_ms=case['L'], **({'fragment_size_bytes': 64} if busy else {}))
+        R = clientrun.ClientRun(loop, n_transports=2 if case.get('again') else 1, ka_ms=case['P'], life_ms=case['L'], **({'fragment_size_bytes': 64} if busy else {}))
         c = R.build()
         await c.connect()
         await loop.settle()
@@ -113,11 +115,22 @@ class C15(Prop):
         # the moment a KEEPALIVE is handed to the send queue (= the moment it is written, unless the link is busy)
         sends = [round(tm) for e, tm in zip(R.log, R.times) if e == 'K' and (first is None or tm <= first)]
         respond_flags = [bool(e[2].flags_respond) for e in t.sent if isinstance(e[2], F.KeepAliveFrame)]
+        again = None
+        if case.get('again') and first is not None:
+            n_to = len(R.timeouts)
+            await c.reconnect()
+            await loop.settle()
+            t2 = R.transports[1]
+            t0 = loop.now_ms()
+            await loop.advance(2 * case['P'] + 10)
+            ka = len([e for e in t2.sent if isinstance(e[2], F.KeepAliveFrame)])
+            await loop.advance(max(0, 3 * case['L'] + case['P'] + 10 - (loop.now_ms() - t0)))
+            again = {'first': t2.sent[0][1].split(' ')[0] if t2.sent else None, 'ka_in_2_periods': ka, 'timeouts': len(R.timeouts) - n_to}
         try:
             await c.close()
         except Exception:
             pass
-        return {'sends': sends, 'fire': round(first) if first is not None else None, 'all_respond': all(respond_flags), 'n_timeouts': len(R.timeouts)}
+        return {'sends': sends, 'fire': round(first) if first is not None else None, 'all_respond': all(respond_flags), 'n_timeouts': len(R.timeouts), 'again': again}
 
     def model_lines(self, case, obs):
         if case['kind'] == 'echo':
@@ -157,6 +170,12 @@ class C15(Prop):
                 fails.append({'signature': 'keepalive-echo-wrong', 'what': 'received %s, replied %s, expected %s' % (case['frames'], got, exp)})
             return fails
         P, L = case['P'], case['L']
+        if obs.get('again'):
+            g = obs['again']
+            if g['ka_in_2_periods'] < 1:
+                fails.append({'signature': 'second-connection-sends-no-keepalive', 'what': 'after the keepalive timeout the client reconnected (first frame on the new transport: %s) and sent no KEEPALIVE within two periods' % g['first']})
+            if g['timeouts'] < 1:
+                fails.append({'signature': 'second-connection-no-timeout', 'what': 'the server stayed silent for three lifetimes on the second connection and the timeout callback was not invoked'})
         s = obs['sends']
         if s and (s[0] != P or any(b - a != P for a, b in zip(s, s[1:]))):
             fails.append({'signature': 'keepalive-not-periodic', 'what': 'P=%d but KEEPALIVEs sent at %s' % (P, s[:10])})
